@@ -18,5 +18,6 @@ CONSTANTS
   OblHonest = TRUE
   AllowXA = TRUE
   OblXATruthful = FALSE
+  OblXAPhaseOrder = TRUE
 INVARIANTS TypeOK ATAtomicRollback TCCAtomic XAAtomic NoDirtyGlobalWrite RollbackPossible
 CHECK_DEADLOCK FALSE
